@@ -245,6 +245,18 @@ def run_gnupg(spec, rec, lib):
             env = gmd.envelope(copy.deepcopy(md))
             how = n % 3
             case = {"kind": "gnupg", "fingerprint": fpr, "how": how, "signed": md}
+            if n % 2 == 1 and how in (0, 1):
+                # the envelope already carries a (stale) OpenPGP entry by this very key: the previous version was signed, the
+                # content was revised, now it is signed again
+                prev = copy.deepcopy(md)
+                if isinstance(prev, dict):
+                    prev["revised"] = False
+                stale = boundary.call(lib, R.sign_via_gpg, canonjson.canon(prev), fpr)
+                q_prev = boundary.call(lib, R.fetch_keyval_from_gpg, fpr)
+                if stale.accepted and q_prev.accepted:
+                    env["signatures"][q_prev.value] = stale.value
+                    case["pre_existing_entry_by_same_key"] = copy.deepcopy(stale.value)
+                    rec.count("gnupg_resign_revised")
             spell = fpr if rng.random() < 0.5 else " ".join(fpr.upper()[i:i + 4] for i in range(0, 40, 4))
             if how == 0:
                 o = boundary.call(lib, R.sign_root_metadata_dict_via_gpg, env, fpr)
@@ -285,6 +297,11 @@ def run_gnupg(spec, rec, lib):
                 rec.violation("gnupg/entry-malformed", "transcribed entry is not a well-formed OpenPGP entry: %r" % (entry,), case)
                 continue
             refok = openpgp.verify(bytes.fromhex(q), data, bytes.fromhex(entry["other_headers"]), bytes.fromhex(entry["signature"]))
+            if not refok and case.get("pre_existing_entry_by_same_key") == entry:
+                rec.violation("gnupg/stale-entry-kept-instead-of-signing-the-current-payload",
+                              "the GPG signing path returned normally but the entry under the key's raw value is still the previous "
+                              "(stale) one: the revised document was not signed", case)
+                continue
             if not refok:
                 rec.count("gnupg_reference_rejects")
                 rec.inconclusive_because("reference rejects a GnuPG-made signature (shim or reference suspect)")
